@@ -102,6 +102,8 @@ pub struct Essence {
     pub error: Option<String>,
     pub cost: Value,
     pub state: Value,
+    /// the cost parameters the response says were in force (weights, rates, aggregation)
+    pub cost_model: Value,
     pub has_route: bool,
 }
 
@@ -121,7 +123,12 @@ pub fn essence(resp: &Value) -> Essence {
         Value::Object(_) => (route.get("cost").cloned().unwrap_or(Value::Null), route.get("traversal_summary").cloned().unwrap_or(Value::Null)),
         _ => (Value::Null, Value::Null),
     };
-    Essence { request, request_value, error, cost, state, has_route: !route.is_null() }
+    let cost_model = match &route {
+        Value::Array(rs) => rs.first().and_then(|r| r.get("cost_model")).cloned().unwrap_or(Value::Null),
+        Value::Object(_) => route.get("cost_model").cloned().unwrap_or(Value::Null),
+        _ => Value::Null,
+    };
+    Essence { request, request_value, error, cost, state, cost_model, has_route: !route.is_null() }
 }
 
 /// the kind of an error: its first words. The full text may name whichever offending item a
@@ -153,6 +160,12 @@ pub fn essence_equal(a: &Essence, b: &Essence, tol: f64) -> Result<(), String> {
     }
     if !json_close(&a.state, &b.state, tol) {
         return Err(format!("final state differs: {} vs {}", a.state, b.state));
+    }
+    // the objective the response reports (weights and rates in force) is part of "route cost": a
+    // query answered under another query's weights is a changed response even when the small
+    // network leaves only one sensible route
+    if !json_close(&a.cost_model, &b.cost_model, tol) {
+        return Err(format!("cost parameters in force differ: {} vs {}", a.cost_model, b.cost_model));
     }
     Ok(())
 }
